@@ -1,5 +1,5 @@
 CFG = {
-    "lean_targets": ["Norad.Props.C01"],
+    "lean_targets": ["Norad.Props.C01", "Norad.Props.C01Bridge"],
     "audit": "Norad/Audit/C01.lean",
     "rule": ("fonts built through the public API (every int-or-float font-info field and list, unitsPerEm, ~100 other font-info fields from a seed, guidelines with "
              "identifiers and libs, lib with every plist type incl. empty arrays/dicts, blank strings, keys with line breaks, groups, kerning, feature text with CR/LF/CRLF "
